@@ -71,6 +71,10 @@ func genC03(t *rapid.T) C03Case {
 	if rapid.IntRange(0, 3).Draw(t, "embed") == 0 {
 		lowBits := uint(bits.Len64(f.N()))
 		c.High = uint64(1) << uint(rapid.IntRange(int(lowBits), 62).Draw(t, "highbit"))
+		if lowBits <= 28 && rapid.IntRange(0, 3).Draw(t, "manytrees") == 0 {
+			s := int(lowBits) + rapid.IntRange(0, 3).Draw(t, "runstart")
+			c.High = ((uint64(1) << uint(rapid.IntRange(30, 62-s).Draw(t, "runlen"))) - 1) << uint(s) // 30+ opaque trees
+		}
 	}
 	hostileRows = []int{63, c.Map.Rows, c.Part.Rows, int(model.Rows(f.N())) + 1}
 	v := f.View()
